@@ -78,15 +78,6 @@ def run(U, rep, tier):
   tau = I.apply(fn(MOD, 'to_tau'), [sysd, symarr('u', (0,)), symarr('q', (3,)), symarr('qd', (3,))], {})
   rep.check(same(tau, P_zeros((3,))), 'R11.1', 'no actuators -> zeros(nv)',
             'to_tau without actuators is not the zero vector of size nv', where=f.where())
-  # loader rows for the actuator table
-  rows, lf = c14.provenance_rows(U)
-  with open(os.path.join(c14.SPECS, 'c14_fields.json')) as fh:
-    spec = json.load(fh)['rows']
-  for key in sorted(k for k in spec if k.startswith('Actuator.')):
-    got = rows.get(key)
-    if got is not None and got[0] == spec[key]:
-      rep.ok('R11.2', 'loader:' + key, construct=got[0][:200], where=(lf.file, got[1], lf.qname))
-    else:
-      rep.fail('R11.2', 'loader:' + key, 'actuator table field `%s` is not built from the reference '
-               'source' % key, where=(lf.file, got[1] if got else lf.line, lf.qname),
-               expected=spec[key], found=got[0] if got else 'row not found')
+  # the loader's actuator table, decided on values: load_model is abstractly executed on mock MuJoCo models
+  # (integer / flag fields concrete, real fields symbolic) and every Actuator field is compared with the reference
+  c14.loader_fields(U, rep, rule='R11.2', prefix='actuator.', label='loader:Actuator.')
